@@ -219,6 +219,18 @@ static SPECS: &[PropertySpec] = &[
         assumptions: &["part order is not demanded (multiset comparison)", "the boundary is drawn from the run PRNG through the guarded hook so runs replay byte-for-byte"],
     },
     PropertySpec {
+        id: "C16",
+        scenario: props::c16::scenario,
+        level: "exploration",
+        rule: "operation histories of 3..25 ops over {new session, clone session, session setters (max_headers, max_redirections, follow_redirects, connect/read/overall timeout, proxy, default charset, compression, header set/append with colliding names incl. Accept and User-Agent), builder from session, standalone builder, builder setters, prepare, send (a prepared request may be sent twice)} executed by 1..3 simulated caller threads interleaved op by op by the seeded scheduler; reference model = records copied at clone/creation, updated in actual execution order; every send is observed behaviourally: header fields and Accept-Encoding on the wire, number of hops against a 8-redirect chain, header limit, peer dialled (proxy or origin), decoded text (default charset), and connect/read/overall timeouts as the exact simulated instant at which a black-holed connect / silent peer is given up; distinct = op-kind string x thread count x schedule signature; non-trivial = at least one send",
+        quick_runs: 4000,
+        matrix_cells: 0,
+        thorough_runs: 200_000,
+        real_components: REAL,
+        stubbed_components: STUB,
+        assumptions: &["there is no shared mutable state reachable from two threads except the Arc reference count; Arc is not instrumented, so the thread dimension contributes op-level interleavings only (not data-race coverage)", "TLS flags and added roots are covered per placement (session/request/sibling) by C14"],
+    },
+    PropertySpec {
         id: "C17",
         scenario: props::c17::scenario,
         level: "exploration",
